@@ -24,10 +24,12 @@ structure WF (H : Home) (d : Doc) : Prop where
   par : ∀ t e, d t = some e → e.parent = H.par t
   parCont : ∀ t e q, d t = some e → H.par t = some q → isContainer d q = true
   objSorted : ∀ p pe keys member, d p = some pe → pe.body = .obj keys member → keys.Pairwise (· < ·)
-  objMem : ∀ p pe keys member k m, d p = some pe → pe.body = .obj keys member → member k = some m →
-    k ∈ keys ∧ H.key m.child = k ∧ H.par m.child = some p
-  arrMem : ∀ x xe nodes moved n c, d x = some xe → xe.body = .arr nodes moved → n ∈ nodes →
-    n.elem = some c → H.par c = some x
+  /-- only for containers that are not tombstones: a tombstoned array element whose content was
+      restored under a new identity still refers to the (re-registered) descendants -/
+  objMem : ∀ p pe keys member k m, d p = some pe → pe.removed = false → pe.body = .obj keys member →
+    member k = some m → k ∈ keys ∧ H.key m.child = k ∧ H.par m.child = some p
+  arrMem : ∀ x xe nodes moved n c, d x = some xe → xe.removed = false → xe.body = .arr nodes moved →
+    n ∈ nodes → n.elem = some c → H.par c = some x
 
 /-- every identity stored in the heap (entries, object members, array elements) and every
     `positionedAt` is at most `L` -/
@@ -181,8 +183,8 @@ theorem absNode_live {d : Doc} {t : Ticket} (h : live d t = true) :
 
 theorem vis_eqv {H H' : Home} {d d' : Doc} (w : WF H d) (w' : WF H' d') (h : Eqv d d') {t : Ticket}
     (hl : live d t = true) : vis d t = vis d' t := by
-  obtain ⟨e, hd, _, ha⟩ := absNode_live hl
-  obtain ⟨e', hd', _, ha'⟩ := absNode_live ((h.live t).symm.trans hl)
+  obtain ⟨e, hd, her, ha⟩ := absNode_live hl
+  obtain ⟨e', hd', her', ha'⟩ := absNode_live ((h.live t).symm.trans hl)
   have hb : absBody d e.body = absBody d' e'.body := by
     have := h.node t
     rw [ha, ha'] at this
@@ -203,14 +205,14 @@ theorem vis_eqv {H H' : Home} {d d' : Doc} (w : WF H d) (w' : WF H' d') (h : Eqv
       | none => exact absurd hk' hk
       | some c =>
         obtain ⟨_, mm, hmm, _⟩ := liveMember_some hk'
-        exact (w.objMem _ _ _ _ _ _ hd hbe hmm).1
+        exact (w.objMem _ _ _ _ _ _ hd her hbe hmm).1
     · intro k hk
       rw [hb] at hk
       cases hk' : liveMember d' m' k with
       | none => exact absurd hk' hk
       | some c =>
         obtain ⟨_, mm, hmm, _⟩ := liveMember_some hk'
-        exact (w'.objMem _ _ _ _ _ _ hd' hbe' hmm).1
+        exact (w'.objMem _ _ _ _ _ _ hd' her' hbe' hmm).1
   · injection hb with hb; simp [visBody, hb]
   · injection hb with h1 h2; simp [visBody, h2]
   · injection hb with hb; simp [visBody, hb]
